@@ -62,6 +62,7 @@ class BodyPath:
         self.value = None      # comprehension element value
         self.raised = None
         self.returned = None   # ReturnSig of an iteration that leaves the function (only for iterations without effects)
+        self.broke = False     # the iteration leaves the loop with `break` (only for iterations without effects)
         self.path_pc = []
         self.elem_writes = []
 
@@ -89,6 +90,9 @@ def make_elem(ex, it):
     if isinstance(it, EnumSeq):
         i = SymVal('int', z3.Int(ex.fresh_name('i')))
         ex.assume(i.t >= it.start)
+        b = base_seq(it.seq)
+        if isinstance(b, SymSeq) and isinstance(it.start, int) and not b.suffix and not getattr(b, 'prefix', None):
+            ex.assume(i.t < it.start + b.len)          # enumerate counts the elements of the sequence
         return (i, make_elem(ex, it.seq))
     if isinstance(it, DictItems):
         d = it.d
@@ -160,7 +164,9 @@ def probe_body(ex, run_body, env, it, havoc_ok=(), body=None):
             except ContinueSig:
                 pass
             except BreakSig:
-                raise Unsupported('break inside a summarised loop')
+                # an iteration that ends the loop: admitted when that iteration has no effect on outer state
+                bp.broke = True
+                bp.path_pc = list(ex.pc[mark_pc:])
             except ReturnSig as e:
                 # an iteration that leaves the function: admitted when that iteration has no effect on outer state
                 bp.returned = e
@@ -199,7 +205,8 @@ def probe_body(ex, run_body, env, it, havoc_ok=(), body=None):
             # writes to outer objects other than the element / fresh objects
             for (obj, attr, old, new, kind) in ex.writes[mark_w:]:
                 if kind == 'setattr':
-                    if obj.prov == 'fresh' or _reachable_from(elem, obj):
+                    if obj.prov == 'fresh' or _reachable_from(elem, obj) or getattr(obj, 'indexed_from', None) is not None:
+                        # (an element picked by a symbolic subscript: its attributes are unknown to later reads anyway)
                         bp.elem_writes.append((obj, attr, new))
                         continue
                     raise Unsupported(f'loop body writes outer object {obj}.{attr}')
@@ -218,6 +225,8 @@ def probe_body(ex, run_body, env, it, havoc_ok=(), body=None):
             bp.local_names = [k for k in env.vars if k not in saved_vars]
             if bp.returned is not None and (bp.appends or bp.dict_adds or bp.elem_writes):
                 raise Unsupported('return inside a summarised loop after the iteration changed outer state')
+            if bp.broke and (bp.appends or bp.dict_adds or bp.elem_writes):
+                raise Unsupported('break inside a summarised loop after the iteration changed outer state')
             paths.append(bp)
             # roll back
             while len(ex.undo) > mark_undo:
@@ -271,6 +280,19 @@ def apply_summary(ex, it, paths, conts, env, node):
             if p.events:
                 ex.log.append(ForEach(seq, [(p.choices + ['<returns>'], p.events)]))
             raise p.returned
+    breaking = [p for p in paths if p.broke]
+    paths = [p for p in paths if not p.broke]
+    if breaking:
+        if getattr(node, 'orelse', None):
+            raise Unsupported('break in a summarised loop that has an else clause')
+        # some iteration breaks (its facts hold for that generic element; earlier iterations took non-breaking paths, summarised below),
+        # or no iteration breaks
+        k = ex.choose(len(breaking) + 1, f'loop@{getattr(node, "lineno", "?")} breaks', ['no'] + [repr(p.choices) for p in breaking])
+        if k > 0:
+            p = breaking[k - 1]
+            for c in p.path_pc:
+                ex.assume(c)
+            ex.assume(seq.len > 0) if isinstance(seq, SymSeq) else None
     normal = [p for p in paths if p.raised is None]
     raising = [p for p in paths if p.raised is not None]
     if raising:
@@ -442,7 +464,19 @@ def seq_getitem(ex, seq, idx, node):
             return new
         raise Unsupported('slice of symbolic sequence')
     if isinstance(idx, SymVal):
-        raise Unsupported('symbolic index into symbolic sequence')
+        if idx.sort != 'int':
+            raise SymRaise(TypeError, ('list indices must be integers',), origin=ex.where(node))
+        if seq.suffix or getattr(seq, 'prefix', None) or seq.elem_factory is None:
+            raise Unsupported('symbolic index into a symbolic sequence with concrete parts')
+        if not ex.branch(z3.And(idx.t < seq.len, idx.t >= -seq.len), f'{seq.label}[i] in range'):
+            raise SymRaise(IndexError, ('list index out of range',), origin=ex.where(node))
+        # some element of the sequence (which one is unknown: no aliasing facts with other subscripts are kept)
+        el = seq.elem_factory(ex, ex.fresh_name(f'{seq.label}[i]'))
+        try:
+            el.indexed_from = seq
+        except Exception:
+            pass
+        return el
     if not isinstance(idx, int):
         raise SymRaise(TypeError, ('list indices must be integers',), origin=ex.where(node))
     pre = getattr(seq, 'prefix', None) or []
